@@ -2090,6 +2090,28 @@ func (lg *ledger) boundFacts(b *ssa.BasicBlock) (out []diffC) {
 						out = append(out, diffC{lg.key(x), startB, startO})
 					}
 				}
+			case *ssa.Extract:
+				// the key of a range over a string, read where the range has produced one: 0 <= key < len(s)
+				if nx, isNext := x.Tuple.(*ssa.Next); isNext && nx.IsString && x.Index == 1 {
+					rg, isRange := nx.Iter.(*ssa.Range)
+					if !isRange || len(nx.Block().Instrs) == 0 {
+						continue
+					}
+					iff, isIf := nx.Block().Instrs[len(nx.Block().Instrs)-1].(*ssa.If)
+					if !isIf {
+						continue
+					}
+					okx, isEx := iff.Cond.(*ssa.Extract)
+					if !isEx || okx.Tuple != ssa.Value(nx) || okx.Index != 0 {
+						continue
+					}
+					body := nx.Block().Succs[0]
+					if len(body.Preds) != 1 || !body.Dominates(x.Block()) {
+						continue
+					}
+					lk := "len(" + lg.key(rg.X) + ")"
+					out = append(out, diffC{"0", lg.key(x), 0}, diffC{lg.key(x), lk, -1})
+				}
 			case *ssa.Index:
 				if arr, isArr := x.X.Type().Underlying().(*types.Array); isArr {
 					k := "len(" + lg.key(x.X) + ")"
